@@ -21,6 +21,10 @@ BOUNDS = (
     "mask, error map, mask+error map with NaN/inf in data and error (automatic masking).  Tolerances: "
     "rtol 1e-10 / atol 1e-10*max|data|*npix against the loop oracles and direct aperture photometry, "
     "1e-9 for the constant-image clause (bins >= 0.2 px wide), monotonicity slack 1e-10*total, history "
+    "Non-square part: images (40,100), (100,40), (23,61) (+(61,23), (30,31) thorough), 10 centres (interior, "
+    "off each of the four edges separately, off the short-axis high edge while within the long-axis length, corners), "
+    "radii [0, 2.5, 6, 10.5, 14.2], exact/center/subpixel(3), no mask / 10% mask, constant 3.25 / ramp+noise; "
+    "exact-method oracle = closed-form circle-pixel overlap per pixel, tol 1e-9*(pi r^2 + 1).  History "
     "comparisons rtol 1e-12 per rescaling (<= 6 rescalings: 1e-11), interpolator knots rtol 1e-9.  "
     "Histories: ALL sequences of length <= 5 over {normalize('max'), normalize('sum'), unnormalize, first "
     "read of profile, first read of profile_error, first read of data_profile} that contain at least one normalize "
@@ -801,12 +805,192 @@ def part_ee(ctx):
                                      (nm, xy, ri, method, mk, normalize))
 
 
+
+# --------------------------------------------------------------------------------------------------
+# part 5: wide / tall non-square images, apertures running off each edge separately
+# --------------------------------------------------------------------------------------------------
+def _seg(t, r):
+    """Antiderivative of sqrt(r^2 - t^2)."""
+    t = max(-r, min(r, t))
+    return 0.5 * (t * math.sqrt(max(r * r - t * t, 0.0)) + r * r * math.asin(t / r))
+
+
+def circle_rect_area(x0, x1, y0, y1, r):
+    """Exact area of {x^2+y^2 <= r^2} within [x0,x1]x[y0,y1] (circle centred on the origin).
+
+    area = int_{x0}^{x1} [min(y1, s(t)) - max(y0, -s(t))]^+ dt, s(t) = sqrt(r^2 - t^2); the integrand is piecewise
+    one of {0, y1-y0, y1+s, s-y0, 2s}; the pieces are integrated in closed form.
+    """
+    a, b = max(x0, -r), min(x1, r)
+    if a >= b:
+        return 0.0
+    cuts = {a, b}
+    for yy in (y0, y1):
+        if abs(yy) <= r:                        # tangency (|yy| == r) cuts at t = 0
+            c = math.sqrt(r * r - yy * yy)
+            for t in (-c, c):
+                if a < t < b:
+                    cuts.add(t)
+    cuts = sorted(cuts)
+    tot = 0.0
+    for u, v in zip(cuts[:-1], cuts[1:]):
+        m = 0.5 * (u + v)
+        sm = math.sqrt(max(r * r - m * m, 0.0))
+        top_is_arc = sm < y1
+        bot_is_arc = -sm > y0
+        hi = sm if top_is_arc else y1
+        lo = -sm if bot_is_arc else y0
+        if hi <= lo:
+            continue
+        seg = _seg(v, r) - _seg(u, r)
+        tot += ((seg if top_is_arc else y1 * (v - u)) - (-seg if bot_is_arc else y0 * (v - u)))
+    return tot
+
+
+def exact_photometry(data, tmask, xc, yc, r):
+    """Sum / area with exact circle-pixel overlap weights, pixel by pixel (closed-form overlap)."""
+    ny, nx = data.shape
+    tot = area = 0.0
+    for i in range(max(int(math.floor(yc - r - 1)), 0), min(int(math.ceil(yc + r + 2)), ny)):
+        for j in range(max(int(math.floor(xc - r - 1)), 0), min(int(math.ceil(xc + r + 2)), nx)):
+            if tmask[i, j]:
+                continue
+            fx = max(abs(j - 0.5 - xc), abs(j + 0.5 - xc))
+            fy = max(abs(i - 0.5 - yc), abs(i + 0.5 - yc))
+            if fx * fx + fy * fy <= r * r:
+                w = 1.0
+            else:
+                nxp = max(j - 0.5 - xc, 0.0, xc - (j + 0.5))
+                nyp = max(i - 0.5 - yc, 0.0, yc - (i + 0.5))
+                if nxp * nxp + nyp * nyp >= r * r:
+                    continue
+                w = circle_rect_area(j - 0.5 - xc, j + 0.5 - xc, i - 0.5 - yc, i + 0.5 - yc, r)
+            tot += w * data[i, j]
+            area += w
+    return tot, area
+
+
+def grid_photometry(data, tmask, xc, yc, r, s):
+    """(Sub)pixel-centre counting by definition on the whole image (numpy form of loop_photometry)."""
+    ny, nx = data.shape
+    off = (np.arange(s) + 0.5) / s - 0.5
+    ys = (np.arange(ny)[:, None] + off[None, :]).ravel() - yc
+    xs = (np.arange(nx)[:, None] + off[None, :]).ravel() - xc
+    q = ys[:, None] ** 2 + xs[None, :] ** 2
+    tie = bool(np.any(np.abs(q - r * r) < 1e-9))
+    frac = (q < r * r).reshape(ny, s, nx, s).sum(axis=(1, 3)) / float(s * s)
+    frac = np.where(tmask, 0.0, frac)
+    return float(np.sum(frac * np.where(tmask, 0.0, data))), float(np.sum(frac)), tie
+
+
+def _nonsq_data(shape, const, seed):
+    if const is not None:
+        return np.full(shape, float(const))
+    yy, xx = np.mgrid[0:shape[0], 0:shape[1]].astype(float)
+    return 2.0 + 0.031 * xx + 0.047 * yy + np.random.default_rng(seed).uniform(0, 1.0, shape)
+
+
+def check_nonsquare(ctx, shape, const, xy, radii, method, s, maskfrac, seed, tag, record=True):
+    from photutils.profiles import CurveOfGrowth, RadialProfile
+    shape = tuple(shape)
+    case = {'kind': 'nonsq', 'shape': list(shape), 'const': const, 'xycen': list(xy), 'radii': list(radii),
+            'method': method, 'subpixels': s, 'maskfrac': maskfrac, 'seed': seed}
+    fails = []
+
+    def chk(ok, key, what):
+        if not ok:
+            fails.append((key, what))
+            if record:
+                ctx.check(False, key, what, case)
+        return ok
+
+    data = _nonsq_data(shape, const, seed)
+    mask = None
+    if maskfrac > 0:
+        mask = np.random.default_rng(seed + 17).random(shape) < maskfrac
+        data = data.copy()
+        data[mask] = 1e7                         # junk under the mask
+    tm = mask if mask is not None else np.zeros(shape, bool)
+    dclean = np.where(tm, 0.0, data)
+    desc = f'shape={shape} xycen={xy} radii={radii} {method}/{s} maskfrac={maskfrac} const={const} ({tag})'
+    osum, oarea, usable = [], [], []
+    for r in radii:
+        if r <= 0:
+            osum.append(0.0), oarea.append(0.0), usable.append(True)
+        elif method == 'exact':
+            t, a = exact_photometry(dclean, tm, xy[0], xy[1], r)
+            osum.append(t), oarea.append(a), usable.append(True)
+        else:
+            t, a, tie = grid_photometry(dclean, tm, xy[0], xy[1], r, 1 if method == 'center' else s)
+            osum.append(t), oarea.append(a), usable.append(not tie)
+    osum, oarea, usable = np.array(osum), np.array(oarea), np.array(usable)
+    scale = float(np.max(np.abs(dclean))) * (math.pi * max(radii) ** 2 + 1.0)
+    atol_s, atol_a = 1e-9 * scale, 1e-9 * (math.pi * max(radii) ** 2 + 1.0)
+    pos = np.array(radii) > 0
+    try:
+        cog = CurveOfGrowth(data, xy, [r for r in radii if r > 0], mask=mask, method=method, subpixels=s)
+        ca, cp = np.array(cog.area, float), np.array(cog.profile, float)
+        rp = RadialProfile(data, xy, radii, mask=mask, method=method, subpixels=s)
+        pa, pp = np.array(rp.area, float), np.array(rp.profile, float)
+    except Exception as exc:  # noqa: BLE001
+        ctx.case(('nonsq', tag), nontrivial=True, contract='nonsquare-overlap')
+        chk(False, 'nonsquare/raises', f'{type(exc).__name__}: {exc}; {desc}')
+        return fails
+    ctx.case(('nonsq', tag), nontrivial=True, contract='nonsquare-overlap')
+    u = usable[pos]
+    chk(bool(np.all(np.abs(ca - oarea[pos])[u] <= atol_a)), f'area-vs-overlap-oracle/CurveOfGrowth/{method}',
+        f'CurveOfGrowth.area {ca} != unmasked overlap area of the circle with the image {oarea[pos]}; {desc}')
+    chk(bool(np.all(np.abs(cp - osum[pos])[u] <= atol_s)), f'sum-vs-overlap-oracle/CurveOfGrowth/{method}',
+        f'CurveOfGrowth.profile {cp} != overlap-weighted sums {osum[pos]}; {desc}')
+    ub = usable[:-1] & usable[1:]
+    e_area = np.diff(oarea)
+    chk(bool(np.all(np.abs(pa - e_area)[ub] <= 2 * atol_a)), f'area-vs-overlap-oracle/RadialProfile/{method}',
+        f'RadialProfile.area {pa} != annulus overlap areas {e_area}; {desc}')
+    good = ub & (e_area > 1e-3)
+    with np.errstate(all='ignore'):
+        e_prof = np.diff(osum) / e_area
+    chk(bool(np.all(np.abs(pp - e_prof)[good] <= 1e-9 * np.abs(e_prof[good]) + 2 * atol_s / e_area[good])),
+        f'profile-vs-overlap-oracle/RadialProfile/{method}',
+        f'RadialProfile.profile {pp} != annulus means {e_prof}; {desc}')
+    if const is not None:
+        g2 = np.isfinite(pa) & (pa > 1e-3) & (e_area > 1e-3)
+        chk(bool(np.all(np.abs(pp[g2] - const) <= 1e-9 * abs(const))), 'constant-image/profile-not-constant',
+            f'constant image {const}: RadialProfile.profile {pp} (area {pa}, true annulus areas {e_area}); {desc}')
+    return fails
+
+
+def part_nonsquare(ctx):
+    shapes = [(40, 100), (100, 40), (23, 61)] + ([(61, 23), (30, 31)] if ctx.thorough else [])
+    radii = [0.0, 2.5, 6.0, 10.5, 14.2]
+    n = 0
+    for shape in shapes:
+        ny, nx = shape
+        mx, my = nx / 2.0 + 0.3, ny / 2.0 - 0.2
+        short = min(ny, nx)
+        cents = [('interior', (mx, my)) if short > 30 else ('interior', (mx, my)),
+                 ('left', (3.3, my)), ('right', (nx - 4.2, my)), ('bottom', (mx, 2.6)), ('top', (mx, ny - 3.4)),
+                 # off the high edge of the SHORT axis while the index still fits within the LONG-axis length
+                 ('short-high', (20.0, ny - 10.0) if ny < nx else (nx - 10.0, 20.0)),
+                 ('short-high-int', (float(short // 2), float(ny - 6)) if ny < nx else (float(nx - 6), float(short // 2))),
+                 ('long-high', (nx - 6.5, min(my, 12.0)) if ny < nx else (min(mx, 12.0), ny - 6.5)),
+                 ('corner-hh', (nx - 2.5, ny - 3.0)), ('corner-ll', (1.5, 2.0))]
+        for cname, xy in cents:
+            for method, sp in (('exact', 5), ('center', 5), ('subpixel', 3)):
+                for maskfrac in (0.0, 0.1):
+                    for const in (3.25, None):
+                        n += 1
+                        if not ctx.thorough and method != 'exact' and (n % 2):
+                            continue
+                        check_nonsquare(ctx, shape, const, xy, radii, method, sp, maskfrac, 100 + n,
+                                        (shape, cname, method, maskfrac, const))
+
 # --------------------------------------------------------------------------------------------------
 def run(ctx):
     part_histories(ctx)
     part_ee(ctx)
     part_constant_monotone(ctx)
     part_photometry(ctx)
+    part_nonsquare(ctx)
     ctx.note('CurveOfGrowth requires radii > 0, so radii arrays starting at 0 are exercised on RadialProfile; '
              'apertures without any overlap with the image give NaN (aperture semantics, C02) and are counted trivial.')
 
@@ -825,6 +1009,10 @@ def replay(case):
     try:
         if kind == 'hist':
             fails = run_history(case['cls'], case['scene'], tuple(case['seq']))
+        elif kind == 'nonsq':
+            fails = check_nonsquare(c, case['shape'], case['const'], tuple(case['xycen']), case['radii'],
+                                    case['method'], case['subpixels'], case['maskfrac'], case['seed'], 'replay',
+                                    record=False)
         elif kind == 'const':
             fails = check_constant(c, tuple(case['shape']), case['c'], tuple(case['xycen']), case['radii'],
                                    case['method'], case['subpixels'], case['maskfrac'], case['seed'], record=False)
